@@ -226,7 +226,7 @@ pub fn def(tier: Tier) -> CheckDef {
     CheckDef {
         id: "C01",
         level: "exploration",
-        rule: "accepted programs from (a) type-directed generation: plain, annotation-erased / hole-inserted, and type-breaking mutants (most mutants are rejected; the accepted ones are run), (b) a risky-order class: groups of 2-4 int / int -> int definitions in which non-value definitions freely mention earlier, later and nested definitions, nested in definitions and in function bodies to depth 3, (c) every closed explicit program up to size 5/6 over a small vocabulary (exhaustive), (d) /repo/examples and the inputs quoted in the property; oracle = gram's own `step` relation under a budget must end in a value, still be running, or be blocked exactly at `literal / 0`; a stuck term is classified by descending the call-by-value evaluation contexts to the blocking redex; non-trivial = accepted, >= 3 steps (or a division by zero) and a group, recursion, nesting, higher-order call, hole / erased annotation or type-level computation; distinct by text",
+        rule: "accepted programs from (a) type-directed generation: plain, annotation-erased / hole-inserted, and type-breaking mutants (most mutants are rejected; the accepted ones are run), (b) a risky-order class: groups of 2-4 int / int -> int definitions in which non-value definitions freely mention earlier, later and nested definitions, nested in definitions and in function bodies to depth 3, (c) every closed explicit program up to size 5/6 over a small vocabulary (exhaustive), (d) /repo/examples and the inputs quoted in the property, (e) exhaustively, an identity function annotated `T1 -> T2` for every pair of small type expressions (conditionals with every comparison operator, type-level functions, definition groups of different lengths), applied at constants and its result used the way T2 allows there; oracle = gram's own `step` relation under a budget must end in a value, still be running, or be blocked exactly at `literal / 0`; a stuck term is classified by descending the call-by-value evaluation contexts to the blocking redex; non-trivial = accepted, >= 3 steps (or a division by zero) and a group, recursion, nesting, higher-order call, hole / erased annotation or type-level computation; distinct by text",
         assumptions: vec![
             "'keeps running' is observed as 'no value after 20 000 (quick) / 60 000 (thorough) steps'",
             "three recorded findings are matched by signature on the blocking redex: a group variable whose definition is a syntactic value (later value definition), an unresolved hole, and a wrong-kind redex in a program during whose checking `open` copied an unresolved hole (hook counter)",
@@ -284,6 +284,36 @@ pub fn def(tier: Tier) -> CheckDef {
                     ReplayInput::Choices(c) => risky_case(ctx, &mut Ch::new(c)),
                     _ => Err(Failure::new("this part replays from choices", "")),
                 })),
+            },
+            Part {
+                name: "coercions-used",
+                rounds: 1,
+                run: Box::new(|ctx, _| {
+                    // C04's exhaustive family of identity functions annotated `T1 -> T2`: whenever
+                    // gram accepts one, its result is *used* the way T2 (at the constants) allows.
+                    use crate::checks::c04::{Base, for_each_coercion};
+                    let (total, ntypes) = for_each_coercion(ctx.shard, ctx.nshards, |decls, call, t2| {
+                        let text = match t2 {
+                            Base::Int => format!("{decls}({call}) + 1"),
+                            Base::Bool => format!("{decls}if {call} then 1 else 2"),
+                            Base::Fun => format!("{decls}({call}) 3 + 1"),
+                        };
+                        match check_text(ctx, &text, 20_000) {
+                            Ok(r) => record(ctx, r, &text, "coercion used", true),
+                            Err(f) => {
+                                ctx.settle(Err(f));
+                                if ctx.peek_violations() >= 6 {
+                                    return false;
+                                }
+                            }
+                        }
+                        true
+                    });
+                    ctx.evaluated(total);
+                    ctx.exhaustive("coercions-used");
+                    ctx.note(&format!("coercions-used: an identity function annotated `(b : bool) -> (x : int) -> T1 -> T2` for every pair of {ntypes} small type expressions, applied at constants, its result then used in arithmetic / as a condition / as a function according to T2 at the constants"));
+                }),
+                replay: None,
             },
             Part {
                 name: "enum-small",
